@@ -252,6 +252,14 @@ func (t trackLn) Accept() (net.Conn, error) {
 // dropConns closes every connection of the endpoint: pending calls fail on the client with a transport error, and the
 // client dials again for its next call (caller holds f.mu).
 func (f *ELFront) dropConns() {
+	// not before the client has finished handing the request over: go-ethereum's rpc client does not fail a request
+	// whose connection dies between its write and the bookkeeping of that write (dispatch skips the "in-flight" request
+	// when it cancels pending ones), and a call without a deadline - every engine call outside proposal building - then
+	// waits for ever. Observed as a hung ProcessProposal when the connection was cut within microseconds of the read; that
+	// window belongs to the dependency and is not what the fault is meant to exercise.
+	f.mu.Unlock()
+	time.Sleep(30 * time.Millisecond)
+	f.mu.Lock()
 	for _, c := range f.conns {
 		c.Close()
 	}
